@@ -22,9 +22,10 @@ type layoutField struct {
 
 // RFC 7540 s6.1-s6.10 payload layouts (after the pad-length octet has been cut).
 var payloadLayouts = map[string][]layoutField{
-	"Data":         {{"b", []int64{0}, 0}},
-	"Headers":      {{"stream", []int64{0}, 4}, {"weight", []int64{4}, 1}, {"rawHeaders", []int64{0, 5}, 0}},
-	"Priority":     {{"stream", []int64{0}, 4}, {"weight", []int64{4}, 1}},
+	"Data": {{"b", []int64{0}, 0}},
+	// exclusive is the top bit of the first octet of the stream dependency
+	"Headers":      {{"stream", []int64{0}, 4}, {"exclusive", []int64{0}, 1}, {"weight", []int64{4}, 1}, {"rawHeaders", []int64{0, 5}, 0}},
+	"Priority":     {{"stream", []int64{0}, 4}, {"exclusive", []int64{0}, 1}, {"weight", []int64{4}, 1}},
 	"RstStream":    {{"code", []int64{0}, 4}},
 	"PushPromise":  {{"stream", []int64{0}, 4}, {"header", []int64{4}, 0}},
 	"Ping":         {{"data", []int64{0}, 0}},
@@ -331,6 +332,19 @@ func (p *Prog) layoutWrites(tname string, fd *ast.FuncDecl) ([]layoutAccess, []s
 		for _, s := range list {
 			switch x := s.(type) {
 			case *ast.IfStmt:
+				// if recv.flag { buf[k] |= mask }: a one-bit field kept in octet k
+				if f, ok := p.recvFieldOf(tname, x.Cond); ok && len(x.Body.List) == 1 && x.Else == nil {
+					if as, ok := x.Body.List[0].(*ast.AssignStmt); ok && as.Tok == token.OR_ASSIGN && len(as.Lhs) == 1 {
+						if ix, ok := as.Lhs[0].(*ast.IndexExpr); ok {
+							if k, ok := p.intConst(ix.Index); ok {
+								if m, ok := p.intConst(as.Rhs[0]); ok && m > 0 && m < 256 && m&(m-1) == 0 {
+									acc = append(acc, layoutAccess{field: f, offs: []int64{k}, width: 1, pos: as.Pos()})
+									continue
+								}
+							}
+						}
+					}
+				}
 				walk(x.Body.List)
 				if b, ok := x.Else.(*ast.BlockStmt); ok {
 					walk(b.List)
